@@ -289,7 +289,7 @@ void run_case(Rng& rng, std::uint64_t idx)
 
 } // namespace
 
-std::uint64_t vfh_num_cases(bool thorough) { return thorough ? 12000 : 360; }
+std::uint64_t vfh_num_cases(bool thorough) { return thorough ? 60000 : 360; }
 void vfh_run_case(std::uint64_t idx, Rng& rng) { run_case(rng, idx); }
 void vfh_selftest()
 {
